@@ -2299,6 +2299,38 @@ def _oracle_api(case):
                 v += _compare(B, g.get_structure(), 0, CTAB_EXPRESSIBLE, P + "/reread")
                 if str(f) != str(fresh):
                     v.append((P + "/differs-from-fresh-object", "a reused MOLFile and a fresh one with the same content print differently"))
+                # a copy is independent of its original in BOTH directions, whatever is done first (the header setter and the
+                # header sync change lines in place, set_structure re-binds them)
+                for order in ("header-first", "structure-first", "in-place-edit-then-write"):
+                    o = MOLFile()
+                    o.header = _mk_header(h1)
+                    o.set_structure(_mk_atoms(B), version=case["ver"])
+                    cp = o.copy()
+                    before_c, before_o = str(cp), str(o)
+                    if order == "header-first":
+                        o.header = _mk_header(h2)
+                        o.set_structure(_mk_atoms(A))
+                    elif order == "structure-first":
+                        o.set_structure(_mk_atoms(A))
+                        o.header = _mk_header(h2)
+                    else:
+                        o.header.comments = "edited after the copy"
+                        o.write(io.StringIO())
+                    if str(cp) != before_c:
+                        v.append((P + "/copy-shares-state/" + order, f"the copy changed when its original was modified: {str(cp).splitlines()[:3]}"))
+                        break
+                    o2 = MOLFile()
+                    o2.header = _mk_header(h1)
+                    o2.set_structure(_mk_atoms(B), version=case["ver"])
+                    cp2 = o2.copy()
+                    if order == "in-place-edit-then-write":
+                        cp2.header.comments = "edited in the copy"
+                        cp2.write(io.StringIO())
+                    else:
+                        cp2.header = _mk_header(h2)
+                    if str(o2) != before_o:
+                        v.append((P + "/copy-shares-state/original-after-" + order, "the original changed when its copy was modified"))
+                        break
                 c = f.copy()
                 f.set_structure(_mk_atoms(A))
                 f.header = _mk_header(h2)
@@ -2671,6 +2703,9 @@ def _edge_case(rng, sc=None):
         c["key"] = rng.choice([{"number": -7}, {"number": -1, "name": "a"}, {"name": "a", "registry_internal": -3},
                                {"name": "a", "registry_external": "x y"}, {"name": "a", "registry_external": "(x)"},
                                {"number": 3, "registry_external": "a)"}, {"name": "a", "registry_external": "a\nb"},
+                               {"number": 12, "name": "NAME", "registry_internal": 55, "registry_external": "MD-08974\n"},
+                               {"name": "a", "registry_external": "x\n"}, {"name": "a", "registry_external": "\n"},
+                               {"number": 1, "registry_external": "x.y-1\n"}, {"name": "ab\n"}, {"number": 2, "name": "q_1\n"},
                                {"name": "a", "registry_external": ""}, {"name": "a", "registry_external": "A-1.b_c"}])
     return c
 
@@ -2727,9 +2762,52 @@ def _oracle_edge(case):
                         v.append((P + "/wrong-exception/" + type(e).__name__, f"{e}"))
         elif sc == "header-line-break":
             hh = dict(h, **{case["field"]: case["text"]})
-            for how in ("header", "molfile", "sdfile"):
+            for how in ("header", "molfile", "sdfile", "assigned-header", "assigned-molfile", "assigned-record", "assigned-parsed-record",
+                        "record-name-setitem", "record-name-ctor"):
                 try:
-                    if how == "header":
+                    if how.startswith("assigned") or how.startswith("record-name"):
+                        # the field gets its line break after the Header object exists (attribute assignment, or the record
+                        # name that SDFile stores into header.mol_name)
+                        fld, txt = case["field"], case["text"]
+                        if how == "assigned-header":
+                            hd = _mk_header(h)
+                            setattr(hd, fld, txt)
+                            text = hd.serialize()
+                            ok = len(text.splitlines()) == 3 and Header.deserialize(text) == hd
+                        elif how == "assigned-molfile":
+                            f = MOLFile()
+                            f.header = _mk_header(h)
+                            f.set_structure(_mk_atoms(mol))
+                            setattr(f.header, fld, txt)
+                            buf = io.StringIO()
+                            f.write(buf)
+                            buf.seek(0)
+                            g = MOLFile.read(buf)
+                            ok = g.header == _mk_header(hh) and not _compare(mol, g.get_structure(), 0, CTAB_EXPRESSIBLE, P)
+                        elif how in ("assigned-record", "assigned-parsed-record"):
+                            sd = SDFile()
+                            sd["r1"] = _rec_of(dict(h, mol_name="r1"), mol, md)
+                            sd["r2"] = _rec_of(dict(h, mol_name="r2"), mol, [])
+                            if how == "assigned-parsed-record":
+                                sd = SDFile.deserialize(sd.serialize())
+                            if fld == "mol_name":
+                                continue                      # the record name is covered by the two cases below
+                            setattr(sd["r1"].header, fld, txt)
+                            back = sdf_roundtrip(sd)
+                            ok = list(back.keys()) == ["r1", "r2"] and not _check_rec(back["r1"], dict(h, **{fld: txt}), mol, md, P, name="r1") \
+                                and not _check_rec(back["r2"], h, mol, [], P, name="r2")
+                        else:
+                            nm = "rec" + txt
+                            rec = _rec_of(dict(h, mol_name="x"), mol, md)
+                            if how == "record-name-setitem":
+                                sd = SDFile()
+                                sd[nm] = rec
+                            else:
+                                sd = SDFile({nm: rec})
+                            sd["after"] = _rec_of(dict(h, mol_name="after"), mol, [])
+                            back = sdf_roundtrip(sd)
+                            ok = list(back.keys()) == [nm, "after"] and not _check_rec(back[nm], h, mol, md, P, name=nm)
+                    elif how == "header":
                         text = _mk_header(hh).serialize()
                         back = Header.deserialize(text)
                         ok = back == _mk_header(hh) and len(text.splitlines()) == 3
